@@ -73,7 +73,7 @@ class RecFitter:
             # anything - the oracle uses the recorded value
             theta = np.ones(model.n_param) / np.sqrt(model.n_param)
         self.calls.append({'data': data, 'pattern_idx': None if pattern_idx is None else list(pattern_idx),
-                           'theta': np.array(theta, dtype=float).copy(), 'model': model.name})
+                           'theta': np.array(theta, dtype=float).copy(), 'model': model.name, 'method': method})
         return theta
 
 
@@ -664,6 +664,9 @@ def _judge_testset(cfg, obs, ctx, case):
                 call = obs['fitter'].calls[fit_ptr]
                 fit_ptr += 1
                 theta = call['theta']
+                if call['method'] != method:
+                    ctx.fail(r + '|fitter-called-with-other-method', case,
+                             'resample %d: evaluation method %r but the fitter was asked to fit %r' % (i, method, call['method']))
                 if call['data'] is not out[0]:
                     ctx.fail(r + '|fit-not-on-training-set', case, 'resample %d: fitter did not receive the bootstrap sample' % i)
             pred = restrict(ref_prediction(s, theta), nc, test_c)
@@ -694,6 +697,10 @@ def _judge_folds(ctx, sig, case, cfg, spec, fitter, evals, train_set, test_set, 
                 call = fitter.calls[fit_ptr]
                 fit_ptr += 1
                 theta = call['theta']
+                # the fitter is asked for the parameters of the evaluation's own comparison method
+                if call['method'] != method:
+                    ctx.fail(sig + '|fitter-called-with-other-method', case,
+                             'fold %d: evaluation method %r but the fitter was asked to fit %r' % (f, method, call['method']))
                 # the parameters were fitted on this fold's training set only
                 if call['data'] is not tr[0]:
                     ctx.fail(sig + '|fit-not-on-training-set', case, 'fold %d: fitter received an object that is not the fold\'s training set' % f)
